@@ -16,6 +16,7 @@ import (
 	"net"
 	"os"
 	"sort"
+	"time"
 
 	"verifharness/gstore"
 	"verifharness/qry"
@@ -37,6 +38,7 @@ import (
 type memTable struct {
 	rows   []*gripper.BaseRow
 	fields []string
+	slow   bool
 }
 
 func (d *memTable) GetTimeout() int                           { return 10 }
@@ -64,7 +66,26 @@ func (d *memTable) emit(ctx context.Context, keep func(*gripper.BaseRow) bool) (
 }
 
 func (d *memTable) FetchRows(ctx context.Context) (chan *gripper.BaseRow, error) {
-	return d.emit(ctx, func(*gripper.BaseRow) bool { return true })
+	if !d.slow {
+		return d.emit(ctx, func(*gripper.BaseRow) bool { return true })
+	}
+	// a table whose full scan takes a while: the first row at once, the others a little later, so that
+	// lookups by field arrive at a gripper.DriverCache that is still loading
+	out := make(chan *gripper.BaseRow)
+	go func() {
+		defer close(out)
+		for i, r := range d.rows {
+			if i > 0 {
+				time.Sleep(3 * time.Millisecond)
+			}
+			select {
+			case out <- r:
+			case <-ctx.Done():
+				return
+			}
+		}
+	}()
+	return out, nil
 }
 
 func (d *memTable) FetchMatchRows(ctx context.Context, field string, value string) (chan *gripper.BaseRow, error) {
@@ -74,12 +95,21 @@ func (d *memTable) FetchMatchRows(ctx context.Context, field string, value strin
 	})
 }
 
+// cachedTable completes gripper.DriverCache to a gripper.Driver (the cache does not forward GetFieldLinks).
+type cachedTable struct {
+	*gripper.DriverCache
+	inner *memTable
+}
+
+func (c cachedTable) GetFieldLinks() (map[string]string, error) { return c.inner.GetFieldLinks() }
+
 // ---------------------------------------------------------------- worlds
 
 type world struct {
-	graph *gripper.TabularGraph
-	srv   *grpc.Server
-	conn  *grpc.ClientConn
+	tables []gripper.Driver
+	graph  *gripper.TabularGraph
+	srv    *grpc.Server
+	conn   *grpc.ClientConn
 }
 
 func (w *world) close() {
@@ -93,7 +123,7 @@ func (w *world) close() {
 
 func str(m map[string]interface{}, k string) string { s, _ := m[k].(string); return s }
 
-func buildWorld(spec map[string]interface{}) (*world, error) {
+func buildWorld(spec map[string]interface{}, cached bool) (*world, error) {
 	tables, _ := spec["tables"].(map[string]interface{})
 	vmap, _ := spec["vmap"].([]interface{})
 	emap, _ := spec["emap"].([]interface{})
@@ -131,9 +161,18 @@ func buildWorld(spec map[string]interface{}) (*world, error) {
 			mt.fields = append(mt.fields, f)
 		}
 		sort.Strings(mt.fields)
-		drivers[name] = mt
+		if cached {
+			// the deployment form of a table service: the driver behind gripper.DriverCache
+			mt.slow = true
+			drivers[name] = cachedTable{gripper.NewDriverCache(mt), mt}
+		} else {
+			drivers[name] = mt
+		}
 	}
 	w := &world{}
+	for _, d := range drivers {
+		w.tables = append(w.tables, d)
+	}
 	lis := bufconn.Listen(1 << 20)
 	w.srv = grpc.NewServer()
 	gripper.RegisterGRIPSourceServer(w.srv, gripper.NewSimpleTableServer(drivers))
@@ -175,6 +214,7 @@ type handler struct {
 	st     *gstore.Store
 	kv     map[int]gdbi.GraphInterface
 	work   string
+	cached bool // tables are served through gripper.DriverCache over slow scans
 }
 
 func New() sup.Handler {
@@ -188,6 +228,9 @@ func (h *handler) Setup(req map[string]interface{}) error {
 	}
 	if gs, ok := req["graphs"].([]interface{}); ok {
 		h.graphs = gs
+	}
+	if c, ok := req["cached"].(bool); ok {
+		h.cached = c
 	}
 	if h.work == "" {
 		h.work, _ = os.MkdirTemp("", "vwork_")
@@ -214,7 +257,7 @@ func (h *handler) world(i int) (*world, error) {
 	if i < 1 || i > len(h.specs) {
 		return nil, fmt.Errorf("no world %d", i)
 	}
-	w, err := buildWorld(h.specs[i-1].(map[string]interface{}))
+	w, err := buildWorld(h.specs[i-1].(map[string]interface{}), h.cached)
 	if err != nil {
 		return nil, err
 	}
@@ -251,10 +294,10 @@ func (h *handler) Handle(req map[string]interface{}) interface{} {
 	ctx := context.Background()
 	var w *world
 	var err error
-	if fresh, _ := req["fresh"].(bool); fresh {
+	if fresh, _ := req["fresh"].(bool); fresh || (h.cached && gi%2 == 0) {
 		// a newly built graph (the driver fixes the order of its mappings when the graph is built)
 		if gi >= 1 && gi <= len(h.specs) {
-			w, err = buildWorld(h.specs[gi-1].(map[string]interface{}))
+			w, err = buildWorld(h.specs[gi-1].(map[string]interface{}), h.cached)
 		} else {
 			err = fmt.Errorf("no world %d", gi)
 		}
@@ -267,6 +310,21 @@ func (h *handler) Handle(req map[string]interface{}) interface{} {
 	if err != nil {
 		resp["harness_err"] = err.Error()
 		return resp
+	}
+	if h.cached && gi%2 == 0 {
+		// worlds with an even index are built anew for every program and all their tables start loading just
+		// before it runs (a cold service being scanned by another client); the others keep their caches
+		sctx, stop := context.WithCancel(context.Background())
+		defer stop()
+		for _, d := range w.tables {
+			go func(d gripper.Driver) {
+				if ch, err := d.FetchRows(sctx); err == nil {
+					for range ch {
+					}
+				}
+			}(d)
+		}
+		time.Sleep(500 * time.Microsecond)
 	}
 	if writes, ok := req["writes"].([]interface{}); ok {
 		resp["results"] = doWrites(w.graph, writes)
